@@ -19,6 +19,10 @@ func init() {
 }
 
 func runC09(c *eng.Ctx) {
+	c.Rule("R09.8", "K1")
+	ruleSwapOnlyAfterASuccessfulPass(c)
+	c.Rule("R01.9", "K5")
+	ruleReaderStartsInsideItsSegment(c)
 	p := c.P
 	passes := []struct{ key, limit, measure string }{
 		{cl + "(*deleteCleaner).applyMessagesLimit", "Messages", cl + "segment.MessageCount"},
